@@ -18,11 +18,11 @@ FiberClauses(F) ==
         <<"P:C20:size", F.size_exc = "ok" /\ (F.leaf = 1 => F.size = words) /\ (F.leaf = 0 => (F.size = words \/ F.size = words + F.npay))>> >>
 
 Judge(B) ==
-  LET dec == Decode(B.desc, B.shape, B.coords, B.pays, B.rootp)
+  LET dec == Decode(B.desc, B.shape, B.coords, B.pays, B.rootp, B.dflt)
       RECURSIVE Cat(_)
       Cat(ss) == IF ss = <<>> THEN <<>> ELSE Head(ss) \o Cat(Tail(ss))
   IN IF B.exc # "ok" THEN <<"P:C20:no-exception">>
-     ELSE Fails(<< <<"P:C20:decode-content", dec.ok /\ dec.content = Content(Abs(B.tree), 0)>>,
+     ELSE Fails(<< <<"P:C20:decode-content", dec.ok /\ dec.content = Content(Abs(B.tree), B.dflt)>>,
                    <<"S:all-words-consumed", dec.ok => \A k \in 1..Len(B.desc) : dec.cur.c[k] = Len(B.coords[k]) /\ dec.cur.p[k] = Len(B.pays[k])>> >>
                 \o Cat([k \in 1..Len(B.fibers) |-> FiberClauses(B.fibers[k])]))
 Init == i \in 1..Len(Log) /\ done = FALSE
